@@ -1,81 +1,9 @@
 (* C14, first half: MigrationPlan::with_prefix against the literally renamed project, the D10 witness,
    and normalisation of a literally renamed table. *)
-From VV.M1 Require Import Oracles PrefixStrP.
+From VV.M1 Require Import Oracles PrefixHyp PrefixStrP.
 From Coq Require Import Lia.
 
-(* ---------- 1. with_prefix is the literal renaming when no column carries an inline FK ---------- *)
-Lemma literal_col_id p c : no_inline_fk_col c = true -> literal_col p c = c.
-Proof.
-  destruct c as [n ty nu d cm pk u ix fk]. unfold no_inline_fk_col, literal_col, set_fk.
-  cbn [c_foreign_key c_name c_type c_nullable c_default c_comment c_primary_key c_unique c_index].
-  destruct fk; [discriminate | reflexivity].
-Qed.
-
-Lemma literal_cols_id p cols : forallb no_inline_fk_col cols = true -> map (literal_col p) cols = cols.
-Proof.
-  induction cols as [|c r IH]; cbn [forallb map]; intro H; [reflexivity|].
-  apply andb_prop in H. destruct H as [Hc Hr]. now rewrite (literal_col_id p c Hc), (IH Hr).
-Qed.
-
-Lemma constraint_with_prefix_is_literal p k : p <> "" -> constraint_with_prefix p k = literal_constraint p k.
-Proof.
-  intro Hp. unfold constraint_with_prefix. apply String.eqb_neq in Hp. now rewrite Hp.
-Qed.
-
-Theorem with_prefix_is_literal : forall p a, p <> "" -> no_inline_fk a = true ->
-  action_with_prefix p a = literal_action p a.
-Proof.
-  intros p a Hp Hn. unfold action_with_prefix. pose proof Hp as Hp'. apply String.eqb_neq in Hp'. rewrite Hp'.
-  destruct a; cbn [literal_action no_inline_fk] in *; try reflexivity.
-  - rewrite (literal_cols_id p _ Hn). f_equal. apply map_ext. intro k. now apply constraint_with_prefix_is_literal.
-  - now rewrite (literal_col_id p _ Hn).
-  - now rewrite constraint_with_prefix_is_literal.
-  - now rewrite constraint_with_prefix_is_literal.
-Qed.
-
-Corollary plan_with_prefix_is_literal : forall p pl, p <> "" ->
-  forallb no_inline_fk (p_actions pl) = true ->
-  p_actions (plan_with_prefix p pl) = map (literal_action p) (p_actions pl).
-Proof.
-  intros p pl Hp Hn. unfold plan_with_prefix. pose proof Hp as Hp'. apply String.eqb_neq in Hp'. rewrite Hp'.
-  cbn [p_actions]. induction (p_actions pl) as [|a r IH]; [reflexivity|].
-  cbn [forallb map] in *. apply andb_prop in Hn. destruct Hn as [Ha Hr].
-  now rewrite (with_prefix_is_literal p a Hp Ha), (IH Hr).
-Qed.
-
-(* ---------- 2. D10: an inline foreign key is not rewritten ---------- *)
-Definition d10_user : table_def :=
-  mkTable "user" None [mkCol "id" (TSimple Integer) false None None (Some (PKBool true)) None None None] [].
-Definition d10_action : action :=
-  CreateTable "post"
-    [mkCol "id" (TSimple Integer) false None None (Some (PKBool true)) None None None;
-     mkCol "user_id" (TSimple Integer) false None None None None None (Some (FKStr "user.id"))] [].
-
-(* the foreign-key targets of the table called [n] in the schema an action list leads to *)
-Definition fk_targets_of (n : string) (r : result schema planner_error) : option (list string) :=
-  match r with
-  | Ok s => option_map fk_targets (find (fun t => String.eqb (t_name t) n) s)
-  | Err _ => None
-  end.
-
-Theorem inline_fk_refuted :
-  no_inline_fk d10_action = false
-  /\ action_with_prefix "app_" d10_action <> literal_action "app_" d10_action
-  /\ fk_targets_of "app_post"
-       (apply_action (literal_schema "app_" [d10_user]) (action_with_prefix "app_" d10_action))
-     = Some ["user"]
-  /\ fk_targets_of "app_post"
-       (apply_action (literal_schema "app_" [d10_user]) (literal_action "app_" d10_action))
-     = Some ["app_user"]
-  /\ has_table "user" (literal_schema "app_" [d10_user]) = false.
-Proof.
-  split; [vm_compute; reflexivity|].
-  split; [vm_compute; intro H; discriminate H|].
-  split; [vm_compute; reflexivity|].
-  split; vm_compute; reflexivity.
-Qed.
-
-(* ---------- 4. normalisation of a literally renamed table ---------- *)
+(* ---------- 0. strings: rev_string, split_on, parse_ref ---------- *)
 Definition no_dot (p : string) : Prop := contains_char "."%char p = false.
 
 (* rev_string *)
@@ -184,6 +112,161 @@ Qed.
 Lemma literal_ref_none p s : parse_ref s = None -> literal_ref p s = s.
 Proof. unfold literal_ref. now intros ->. Qed.
 
+(* ---------- 1. with_prefix is the literal renaming when every inline FK is well formed ---------- *)
+(* a well-formed reference is re-assembled to itself, so the literal renaming is plain concatenation *)
+Lemma literal_ref_parses p s : parse_ref s <> None -> literal_ref p s = p +++ s.
+Proof.
+  intro H. unfold literal_ref. destruct (parse_ref s) as [[t c]|] eqn:E; [|congruence].
+  destruct (parse_ref_shape s t c E) as (Hs & _ & _). rewrite Hs. reflexivity.
+Qed.
+
+Lemma prefix_inline_fk_is_literal p c : inline_fk_parses_col c = true -> prefix_inline_fk p c = literal_col p c.
+Proof.
+  unfold inline_fk_parses_col, prefix_inline_fk, literal_col.
+  destruct (c_foreign_key c) as [f|]; [|reflexivity]. intro H. cbn [option_map]. do 2 f_equal.
+  destruct f as [s|s od ou|t cs od ou]; cbn [fk_parses literal_fk] in *; [| |reflexivity].
+  - rewrite literal_ref_parses; [reflexivity|]. destruct (parse_ref s); [discriminate | discriminate H].
+  - rewrite literal_ref_parses; [reflexivity|]. destruct (parse_ref s); [discriminate | discriminate H].
+Qed.
+
+Lemma prefix_inline_fks_are_literal p cols : forallb inline_fk_parses_col cols = true ->
+  map (prefix_inline_fk p) cols = map (literal_col p) cols.
+Proof.
+  induction cols as [|c r IH]; cbn [forallb map]; intro H; [reflexivity|].
+  apply andb_prop in H. destruct H as [Hc Hr]. now rewrite (prefix_inline_fk_is_literal p c Hc), (IH Hr).
+Qed.
+
+Lemma literal_col_id p c : no_inline_fk_col c = true -> literal_col p c = c.
+Proof.
+  destruct c as [n ty nu d cm pk u ix fk]. unfold no_inline_fk_col, literal_col, set_fk.
+  cbn [c_foreign_key c_name c_type c_nullable c_default c_comment c_primary_key c_unique c_index].
+  destruct fk; [discriminate | reflexivity].
+Qed.
+
+Lemma constraint_with_prefix_is_literal p k : p <> "" -> constraint_with_prefix p k = literal_constraint p k.
+Proof.
+  intro Hp. unfold constraint_with_prefix. apply String.eqb_neq in Hp. now rewrite Hp.
+Qed.
+
+Theorem with_prefix_is_literal : forall p a, p <> "" -> inline_fks_parse a = true ->
+  action_with_prefix p a = literal_action p a.
+Proof.
+  intros p a Hp Hn. unfold action_with_prefix. pose proof Hp as Hp'. apply String.eqb_neq in Hp'. rewrite Hp'.
+  destruct a; cbn [literal_action inline_fks_parse] in *; try reflexivity.
+  - rewrite (prefix_inline_fks_are_literal p _ Hn). f_equal. apply map_ext. intro k.
+    now apply constraint_with_prefix_is_literal.
+  - now rewrite (prefix_inline_fk_is_literal p _ Hn).
+  - now rewrite constraint_with_prefix_is_literal.
+  - now rewrite constraint_with_prefix_is_literal.
+Qed.
+
+(* the hypothesis of the pre-repair theorem is a special case *)
+Lemma no_inline_fk_parses a : no_inline_fk a = true -> inline_fks_parse a = true.
+Proof.
+  assert (Hc : forall c, no_inline_fk_col c = true -> inline_fk_parses_col c = true).
+  { intros c. unfold no_inline_fk_col, inline_fk_parses_col. now destruct (c_foreign_key c). }
+  destruct a; cbn [no_inline_fk inline_fks_parse]; try reflexivity; [|apply Hc].
+  induction columns as [|c r IH]; cbn [forallb]; [reflexivity|].
+  intro H. apply andb_prop in H. destruct H as [H1 H2]. now rewrite (Hc c H1), (IH H2).
+Qed.
+
+Corollary with_prefix_is_literal_no_inline_fk : forall p a, p <> "" -> no_inline_fk a = true ->
+  action_with_prefix p a = literal_action p a.
+Proof. intros p a Hp Hn. apply with_prefix_is_literal; [exact Hp | now apply no_inline_fk_parses]. Qed.
+
+Corollary plan_with_prefix_is_literal : forall p pl, p <> "" ->
+  forallb inline_fks_parse (p_actions pl) = true ->
+  p_actions (plan_with_prefix p pl) = map (literal_action p) (p_actions pl).
+Proof.
+  intros p pl Hp Hn. unfold plan_with_prefix. pose proof Hp as Hp'. apply String.eqb_neq in Hp'. rewrite Hp'.
+  cbn [p_actions]. induction (p_actions pl) as [|a r IH]; [reflexivity|].
+  cbn [forallb map] in *. apply andb_prop in Hn. destruct Hn as [Ha Hr].
+  now rewrite (with_prefix_is_literal p a Hp Ha), (IH Hr).
+Qed.
+
+(* the hypothesis is what normalisation enforces: a table that normalises has well-formed inline FKs *)
+Lemma pass_fk_ok_parses cols : forall cs cs', pass_fk cols cs = Ok cs' ->
+  forallb inline_fk_parses_col cols = true.
+Proof.
+  induction cols as [|c r IH]; intros cs cs' H; [reflexivity|].
+  cbn [pass_fk] in H. cbn [forallb]. unfold inline_fk_parses_col at 1.
+  destruct (c_foreign_key c) as [f|]; [|now rewrite (IH _ _ H)].
+  destruct (fk_of_syntax (c_name c) f) as [[[[t rc] od] ou]|e] eqn:E; [|discriminate].
+  assert (Hf : fk_parses f = true).
+  { destruct f as [s|s od' ou'|]; cbn [fk_of_syntax fk_parses] in *; try reflexivity;
+      destruct (parse_ref s) as [[a b]|]; try reflexivity; discriminate E. }
+  rewrite Hf. destruct (existsb (fk_hit (c_name c)) cs); now rewrite (IH _ _ H).
+Qed.
+
+Lemma normalize_ok_parses t n : normalize t = Ok n -> forallb inline_fk_parses_col (t_columns t) = true.
+Proof.
+  unfold normalize, normalize_constraints. intro H.
+  destruct (pass_fk (t_columns t) _) as [cs3|e] eqn:E; [|discriminate].
+  eapply pass_fk_ok_parses; exact E.
+Qed.
+
+(* a CreateTable that apply_action accepts satisfies the hypothesis *)
+Lemma applied_create_parses s t cols ks s' :
+  apply_action s (CreateTable t cols ks) = Ok s' -> inline_fks_parse (CreateTable t cols ks) = true.
+Proof.
+  cbn [apply_action inline_fks_parse]. destruct (has_table t s); [discriminate|].
+  destruct (normalize (mkTable t None cols ks)) as [n|e] eqn:E; [|discriminate]. intros _.
+  exact (normalize_ok_parses _ _ E).
+Qed.
+
+(* ---------- 2. D10 after the repair ---------- *)
+Definition d10_user : table_def :=
+  mkTable "user" None [mkCol "id" (TSimple Integer) false None None (Some (PKBool true)) None None None] [].
+Definition d10_create (r : string) : action :=
+  CreateTable "post"
+    [mkCol "id" (TSimple Integer) false None None (Some (PKBool true)) None None None;
+     mkCol "user_id" (TSimple Integer) false None None None None None (Some (FKStr r))] [].
+Definition d10_action : action := d10_create "user.id".
+
+(* the foreign-key targets of the table called [n] in the schema an action list leads to *)
+Definition fk_targets_of (n : string) (r : result schema planner_error) : option (list string) :=
+  match r with
+  | Ok s => option_map fk_targets (find (fun t => String.eqb (t_name t) n) s)
+  | Err _ => None
+  end.
+
+(* the former witness of D10: the inline FK is rewritten now *)
+Theorem inline_fk_fixed :
+  no_inline_fk d10_action = false
+  /\ inline_fks_parse d10_action = true
+  /\ action_with_prefix "app_" d10_action = literal_action "app_" d10_action
+  /\ fk_targets_of "app_post"
+       (apply_action (literal_schema "app_" [d10_user]) (action_with_prefix "app_" d10_action))
+     = Some ["app_user"].
+Proof. repeat split; vm_compute; reflexivity. Qed.
+
+(* the remaining corner, harmless form: a malformed reference with two dots is prefixed blindly by
+   with_prefix and left alone by the literal renaming; normalisation rejects it either way *)
+Theorem malformed_inline_fk_refuted :
+  inline_fks_parse (d10_create "a.b.c") = false
+  /\ action_with_prefix "app_" (d10_create "a.b.c") <> literal_action "app_" (d10_create "a.b.c")
+  /\ apply_action [d10_user] (d10_create "a.b.c") = Err TableValidation
+  /\ apply_action (literal_schema "app_" [d10_user]) (literal_action "app_" (d10_create "a.b.c")) = Err TableValidation
+  /\ apply_action (literal_schema "app_" [d10_user]) (action_with_prefix "app_" (d10_create "a.b.c")) = Err TableValidation.
+Proof.
+  split; [vm_compute; reflexivity|].
+  split; [vm_compute; intro H; discriminate H|].
+  repeat split; vm_compute; reflexivity.
+Qed.
+
+(* the remaining corner, not harmless: the reference ".x" (empty table part) is rejected without a prefix
+   and by the literally renamed project, but with_prefix turns it into the well-formed "app_.x", so the
+   prefixed plan is accepted and references a table called "app_" *)
+Theorem empty_table_inline_fk_refuted :
+  inline_fks_parse (d10_create ".x") = false
+  /\ apply_action [d10_user] (d10_create ".x") = Err TableValidation
+  /\ apply_action (literal_schema "app_" [d10_user]) (literal_action "app_" (d10_create ".x")) = Err TableValidation
+  /\ fk_targets_of "app_post"
+       (apply_action (literal_schema "app_" [d10_user]) (action_with_prefix "app_" (d10_create ".x")))
+     = Some ["app_"].
+Proof. repeat split; vm_compute; reflexivity. Qed.
+
+(* ---------- 4. normalisation of a literally renamed table ---------- *)
 Definition pre_fk (p : string) (v : string * list string * option ref_action * option ref_action) :=
   match v with (t, rc, od, ou) => (p +++ t, rc, od, ou) end.
 
